@@ -28,7 +28,7 @@ META['explanation'] += ' ' + 'R10: float valued fields refuse NaN / infinities (
 
 META['explanation'] += ' ' + 'R14: native value of an OPTIONAL ASN.1 field tested before use (field tables read from asn1crypto). R15: modulus / prime of a parsed RSA / DSA key refused unless positive (abstract run; syntactic reading where the run does not reach). R16: text of parameter objects against null fields of the data tables. R17: rendering calls no parse entry point. R18: parsable classes with a plain initialiser have a rendering.'
 
-META['explanation'] += ' ' + 'R19: optional parts of a urllib3 Url are tested before they are sliced, concatenated or measured (field list read from the dependency). R20: explicit __eq__ / __hash__ compare the attributes as held.'
+META['explanation'] += ' ' + 'R19: optional parts of a urllib3 Url are tested before they are sliced, concatenated or measured (field list read from the dependency). R20: explicit __eq__ / __hash__ compare the attributes as held. R21: hand written renderings evaluated on objects built with the constructor defaults.'
 
 SET_NAMES = {'set', 'frozenset'}
 
@@ -453,6 +453,7 @@ def check(ctx, report):
     plain_classes_render(ctx, report)
     optional_url_parts(ctx, report)
     equality_on_rendered_values(ctx, report)
+    plain_class_rendering_evaluated(ctx, report)
     report.floor('C14.R1', 20, 'iteration obligations')
     report.floor('C14.R4', 15, '_asdict overrides')
 
@@ -978,6 +979,75 @@ def url_optional_fields():
                         'Optional' in ast.unparse(n.elts[1]):
                     out.add(n.elts[0].value)
     return out
+
+
+def plain_class_rendering_evaluated(ctx, report, RULE='C14.R21'):
+    """A parsable class with a hand written initialiser renders through its own ``_asdict`` / ``__str__``.  Both are evaluated
+    (sa.miniexec) on objects built by evaluating the initialiser: once with every defaulted parameter left at its default (a tuple
+    default where the parser hands in a list), once with sequence defaults replaced by a list of the same kind of item - rendering
+    has to give a value for both; a TypeError (``[a] + self.items`` with a tuple) or AttributeError is a document that cannot be
+    produced for an object the constructor accepts."""
+    from ..miniexec import Evaluator, Native, Raised, Unsupported, class_call_hook
+    report.rule(RULE, 'hand written renderings (_asdict / __str__) of plain parsable classes give a value for objects built with the constructor defaults')
+    n = 0
+    for c in ctx.model.repo_classes():
+        if c.is_enum or c.has_attrs() or not ctx.model.is_parsable(c):
+            continue
+        init = c.resolve('__init__')
+        if init is None or init.module.external:
+            continue
+        renderers = [c.methods[m] for m in ('_asdict', '__str__') if m in c.methods]
+        if not renderers:
+            continue
+        a = init.node.args
+        params = [x.arg for x in a.args][1:]
+        defaults = dict(zip(params[len(params) - len(a.defaults):], a.defaults))
+        variants = []
+        base = {}
+        ok = True
+        for p_ in params:
+            if p_ in defaults:
+                try:
+                    base[p_] = ast.literal_eval(defaults[p_])
+                except (ValueError, SyntaxError):
+                    ok = False
+            else:
+                base[p_] = 'en'
+        if not ok:
+            continue
+        variants.append(('defaults', base))
+        if any(isinstance(v, (tuple, list)) for v in base.values()):
+            variants.append(('lists', {k: (['US'] if isinstance(v, (tuple, list)) else v) for k, v in base.items()}))
+            variants.append(('tuples', {k: (('US',) if isinstance(v, (tuple, list)) else v) for k, v in base.items()}))
+        hook = class_call_hook(c, None, ctx.model)
+        nh = hook.name_hook_for(c.module, None)
+        for label, args in variants:
+            class Me(Native):
+                _repo_class = c
+            me = Me()
+            try:
+                Evaluator(dict({a.args[0].arg: me}, **args), hook, nh).function(init.node)
+            except (Unsupported, Raised, AttributeError, TypeError):
+                break
+            for r in renderers:
+                n += 1
+                report.count(RULE)
+                report.touch(r)
+                try:
+                    Evaluator({r.node.args.args[0].arg: me}, hook, nh).function(r.node)
+                except (TypeError, AttributeError) as e:
+                    report.add(RULE, '%s@%s[%s]' % (r.construct, type(e).__name__, label),
+                               '%s(%s) is accepted by the constructor, %s of it raises %s: %s' % (
+                                   c.name, ', '.join('%s=%r' % kv for kv in args.items()), r.name, type(e).__name__, str(e)[:80]))
+                except Unsupported as e:
+                    # the evaluator reports the TypeError of an operator applied to real values as "not evaluable: <message>"
+                    if 'can only concatenate' in str(e) or 'unsupported operand type' in str(e):
+                        report.add(RULE, '%s@TypeError[%s]' % (r.construct, label),
+                                   '%s(%s) is accepted by the constructor, %s of it raises TypeError: %s' % (
+                                       c.name, ', '.join('%s=%r' % kv for kv in args.items()), r.name, str(e)[:120]))
+                except Raised:
+                    pass
+    report.floor(RULE, 1, 'evaluated renderings of plain parsable classes')
 
 
 def equality_on_rendered_values(ctx, report, RULE='C14.R20'):
